@@ -34,7 +34,7 @@ def run(ctx):
             ctx.sample({'kind': 'FitRegion case with the real result', 'case': evs[1]['case'], 'result': evs[1]['result']})
     ctx.extra['cases_checked'] = total
     ctx.extra['satisfied_cases'] = 'see evidence samples'
-    return ctx.finish(rule='Fit.tla defines valid assignments, role mismatches, isolation score and the best assignment under the documented order; '
+    return ctx.finish(level='exploration', rule='Fit.tla defines valid assignments, role mismatches, isolation score and the best assignment under the documented order; '
                            'seeded cases (3-6 stores with zone/host/disk/engine labels, 1-6 peers with learners and a leader, 1-4 rules with all four '
                            'constraint operators and location labels) are run through the real placement.FitRegion and TLC checks every recorded '
                            'result against the definitions (all (rules+1)^peers assignments enumerated per case)')
